@@ -1171,7 +1171,11 @@ where
 
         // Auto accept the message and leave settled to be determined based on rcv_settle_mode
         if self.auto_accept {
+            #[cfg(fe2o3_amqp_verif)]
+            crate::verif::sched_point("observe.receiver.auto_accept.begin").await;
             self.dispose(&delivery, None, Accepted {}.into()).await?; // cancel safe
+            #[cfg(fe2o3_amqp_verif)]
+            crate::verif::sched_point("observe.receiver.auto_accept.end").await;
         }
 
         Ok(Some(delivery))
